@@ -22,6 +22,10 @@
    and USING the trait on fresh objects (instance trait and class attribute: default_value_for, read, two
    assignments, delete) must give what it gave before the call.  Runs in the crash-isolated subprocess: a crash in
    the use is reported with the program (the case line) as replay.
+#DPX kind|value|op            a class-prefix delegate (`Delegate('d', prefix='*')`, also modify=True, PrototypedFrom)
+   whose owner class gets a NON-STRING `__prefix__` (int, None, bytes, float, tuple, object) after a first successful
+   read: reading / assigning the delegated attribute must raise TypeError (the name computation fails), never
+   crash, and with a str `__prefix__` restored the delegate must work again.
 """
 import json
 
@@ -537,7 +541,107 @@ def do_REJ(spec):
     return ans
 
 
+# ===================================================================== child side: DPX
+
+DPX_KINDS = ["delegate", "delegate-modify", "prototyped", "delegate-listened"]
+DPX_VALUES = ["int", "none", "bytes", "float", "tuple", "object", "list"]
+DPX_OPS = ["read", "write", "read-fresh", "write-fresh"]
+
+
+def do_DPX(spec):
+    import traits.api as T
+    from props.seqlib import exc_name
+    kind, value, op = spec["kind"], spec["value"], spec["op"]
+    bad = {"int": 5, "none": None, "bytes": b"p", "float": 1.5, "tuple": ("p",), "object": NotCallable(),
+           "list": ["p"]}[value]
+
+    class D(T.HasTraits):
+        px = T.Int(7)
+        x = T.Int(1)
+
+    if kind == "prototyped":
+        tr = T.PrototypedFrom("d", prefix="*")
+    else:
+        tr = T.Delegate("d", prefix="*", modify=(kind == "delegate-modify"))
+
+    class A(T.HasTraits):
+        __prefix__ = "p"
+        d = T.Instance(D, ())
+        x = tr
+    a = A()
+    if kind == "delegate-listened":
+        a.on_trait_change(_f, "x")
+    if a.x != 7:
+        return {"error": "the delegate does not work to begin with: %r" % (a.x,)}
+    A.__prefix__ = bad
+    if op.endswith("fresh"):
+        try:
+            a = A()         # the Python-level listener set-up formats the prefix with %s and may refuse the result
+        except Exception as e:
+            A.__prefix__ = "p"
+            return {"out": "construct-raised " + exc_name(e), "after": "ok", "not_applicable": True}
+    try:
+        if op.startswith("read"):
+            r = a.x
+            out = "returned " + type(r).__name__
+        else:
+            a.x = 1
+            out = "assigned"
+    except BaseException as e:
+        out = "raised " + exc_name(e) + " " + type(e).__name__
+    A.__prefix__ = "p"
+    b = A()
+    try:
+        after = "ok" if b.x == 7 and a.d.px in (7, 1) else "wrong"
+    except Exception as e:
+        after = "raised " + type(e).__name__
+    return {"out": out, "after": after}
+
+
 # ===================================================================== parent side
+
+def dpx_spec(case):
+    p = [x.strip() for x in case[len("#DPX "):].split("|")]
+    return {"kind": p[0], "value": p[1], "op": p[2]}
+
+
+def judge_dpx(case, ans, crash_summary):
+    sp = dpx_spec(case)
+    rw = "read" if sp["op"].startswith("read") else "write"
+    if "crash" in ans:
+        return "crash", [{"signature": "crash:delegate-prefix-not-str:" + rw,
+                          "what": "class A(HasTraits): __prefix__ = 'p'; d = Instance(D, ()); x = %s; a.x (fine); "
+                                  "A.__prefix__ = <%s>; then %s of a.x kills the interpreter: %s" % (
+                                      sp["kind"], sp["value"], sp["op"], crash_summary(ans)),
+                          "stderr_tail": ans.get("stderr", "")[-1500:]}]
+    if ans.get("error"):
+        return "harness-exception " + ans["error"], []
+    hits = []
+    out = ans["out"]
+    if ans.get("not_applicable"):
+        return out, hits
+    if not out.endswith(" TypeError"):
+        hits.append({"signature": "delegate-prefix-not-str:wrong-exception:" + rw,
+                     "what": "%s with a non-string `__prefix__` (%s) on the owner class: %s of the delegated attribute "
+                             "%s; the name computation cannot succeed: TypeError expected" % (
+                                 sp["kind"], sp["value"], sp["op"], out)})
+    if ans.get("after") != "ok":
+        hits.append({"signature": "delegate-prefix-not-str:broken-afterwards:" + rw,
+                     "what": "after the failed %s and with `__prefix__ = 'p'` restored the delegate gives %s" % (
+                         sp["op"], ans.get("after"))})
+    return out.split(" ")[0] + " " + out.split(" ")[-1], hits
+
+
+def gen_dpx(rng, tier):
+    out = []
+    for k in DPX_KINDS:
+        for v in DPX_VALUES:
+            for op in DPX_OPS:
+                if tier == "quick" and v not in ("int", "none") and rng.random() < 0.6:
+                    continue
+                out.append("#DPX %s|%s|%s" % (k, v, op))
+    return out
+
 
 def gref_spec(case):
     p = [x.strip() for x in case[len("#GREF "):].split("|")]
@@ -656,11 +760,21 @@ def gen_gref(rng, n):
         fs = [f for f in CT_FIELDS if rng.random() < 0.5]
         rng.shuffle(fs)
         out.append("#GREF ctrait|%s|%s" % (" ".join(fs), rng.choice(CT_VARIANTS[:4])))
-    return out
+    return list(dict.fromkeys(out))
 
 
 def gen_glive(rng, tier):
+    """quick: per cycle shape the two (extra, garbage) points where as many instances are garbage as frame locals
+    refer to the class (the point at which a type reported twice per instance is taken for garbage) + one drawn
+    point; thorough: the grid."""
     out = []
+    if tier == "quick" and rng is not None:
+        for v in LIVE_VARIANTS:
+            pts = [(1, 1), (3, 2)] if v == "pair" else [(0, 1), (1, 2)]
+            pts.append((rng.randint(0, 3), rng.randint(0, 5)))
+            for e, g in dict.fromkeys(pts):
+                out.append("#GLIVE %s %d %d" % (v, e, g))
+        return out
     emax, gmax = (2, 4) if tier == "quick" else (3, 7)
     for v in LIVE_VARIANTS:
         for e in range(emax + 1):
@@ -670,16 +784,15 @@ def gen_glive(rng, tier):
 
 
 def gen_rej(rng, tier):
+    """quick: every (setter, shape) once, on the configuration its family is about or on a drawn one; thorough:
+    every (setter, shape) on all nine configurations."""
     out = []
+    fixed = {"set_default_value": ["int", "const", "list"], "_set_property": ["property"], "delegate": ["delegate"],
+             "set_validate": ["validated", "int"], "post_setattr": ["validated"]}
     for setter, shapes in SHAPES.items():
         for shape, _ in shapes:
             if tier == "quick":
-                # every shape on three configurations: one fixed per setter family, two drawn
-                ps = {"set_default_value": ["int", "const"], "_set_property": ["property"],
-                      "delegate": ["delegate"]}.get(setter, ["const"])
-                ps = ps + rng.sample([p for p in PRIORS if p not in ps], 2)
-                if shape == "del":
-                    ps = ps[:1]
+                ps = [rng.choice(fixed.get(setter, ["const"])) if rng.random() < 0.5 else rng.choice(PRIORS)]
             else:
                 ps = PRIORS
             for p in ps:
